@@ -14,7 +14,7 @@ ID = 'C02'
 LEAN_MODULES = ['Pfst.Props.C02']
 THEOREMS = [
     'Pfst.C02.unmake_dead', 'Pfst.C02.unmake_frame', 'Pfst.C02.linked_injective', 'Pfst.C02.unmake_keeps_linked',
-    'Pfst.C02.make_inv', 'Pfst.C02.setAst_inv_partial', 'Pfst.C02.setAst_inv', 'Pfst.C02.setField_inv_partial', 'Pfst.C02.setField_inv', 'Pfst.C02.setAst_wf', 'Pfst.C02.setField_wf',
+    'Pfst.C02.make_inv', 'Pfst.C02.setAst_inv_partial', 'Pfst.C02.setAst_inv', 'Pfst.C02.setField_inv_partial', 'Pfst.C02.setField_inv', 'Pfst.C02.setAst_wf', 'Pfst.C02.setAst_root_wf', 'Pfst.C02.setField_wf',
     'Pfst.C02.step_wf', 'Pfst.C02.run_wf', 'Pfst.C02.wfB_iff', 'Pfst.C02.admissibleB_sound', 'Pfst.C02.step_wfB',
     'Pfst.C02.root_identity', 'Pfst.C02.touch_preserves_links', 'Pfst.C02.linkInv_mem',
     'Pfst.C02.offset_touches_changed', 'Pfst.C02.offset_cache_coherent', 'Pfst.C02.view_heal', 'Pfst.C02.view_len',
